@@ -484,6 +484,20 @@ func checkC08(c *Ctx) {
 								if _, isDbg := ref.(*ssa.DebugRef); isDbg {
 									continue
 								}
+								// reading an entry, ranging over the map or taking its length changes nothing
+								switch rr := ref.(type) {
+								case *ssa.Lookup:
+									if rr.X == ssa.Value(x) {
+										continue
+									}
+								case *ssa.Range:
+									continue
+								}
+								if call, ok := ref.(ssa.CallInstruction); ok {
+									if bi, ok := call.Common().Value.(*ssa.Builtin); ok && bi.Name() == "len" {
+										continue
+									}
+								}
 								bad = append(bad, fmt.Sprintf("%s: the deny-list map is %s at %s", FuncKey(fn), describeInstr(ref), p.Pos(ref.Pos())))
 							}
 						default:
@@ -494,7 +508,7 @@ func checkC08(c *Ctx) {
 			}
 		}
 		sort.Strings(bad)
-		r.Check(len(bad) == 0, "C08.B4", relOfTypesPkg(gv.Pkg())+"."+gv.Name(), p.Pos(gv.Pos()), fmt.Sprintf("%d uses: initialised once, otherwise only passed to rego.UnsafeBuiltins", uses), strings.Join(bad, "; "))
+		r.Check(len(bad) == 0, "C08.B4", relOfTypesPkg(gv.Pkg())+"."+gv.Name(), p.Pos(gv.Pos()), fmt.Sprintf("%d uses: initialised once, otherwise only read (entries, range, len) or passed to rego.UnsafeBuiltins", uses), strings.Join(bad, "; "))
 	}
 	if len(guardGlobals) == 0 {
 		r.OK("C08.B4", "no-global", "", "the deny-list is not a package-level variable; local literals are checked for mutation where they are resolved")
